@@ -152,6 +152,8 @@ class Realiser:
         if 'sent' in ir:
             return glom.SKIP if ir['sent'] == 'SKIP' else glom.STOP
         i = ir['id']
+        if ir['k'] == 'tuple' and not ir['items']:
+            return ()
         if i and i in self.by_id:
             return self.by_id[i]
         k = ir['k']
@@ -332,6 +334,8 @@ class TargetGen:
                  'items': [[k, self.value(depth - 1)] for k in keys]}
         elif kind in ('list', 'tuple'):
             v = {'k': kind, 'id': self.fresh(), 'items': [self.value(depth - 1) for _ in range(n)]}
+            if kind == 'tuple' and not v['items']:
+                v['id'] = 0      # CPython has a single empty tuple: it has no identity of its own
         else:
             names = r.sample(ATTR_NAMES, min(n, len(ATTR_NAMES)))
             v = {'k': 'obj', 'id': self.fresh(), 'cls': r.choice([0, 1]), 'attrs': [[a, self.value(depth - 1)] for a in names]}
